@@ -1,5 +1,6 @@
 import Ubx.Model.Types
 import Ubx.Model.PyNames
+import Ubx.Model.PyLiteAttr
 /-!
 # PyLite — a deep embedding of the Python fragment the pyubx2 control code is written in
 
@@ -57,6 +58,7 @@ inductive S where
   | assign (x : Name) (e : E)
   | assignT (xs : List Name) (e : E)                  -- `(a, b) = e`
   | aug (x : Name) (op : BinOp) (e : E)
+  | setAttr (obj : E) (a : Name) (e : E)              -- `obj.a = e`
   | ret (e : E)
   | raise (e : E)                                     -- `raise e` / `raise e from …`
   | if_ (c : E) (t f : List S)
@@ -82,7 +84,35 @@ inductive V (ω : Type) where
   | host (o : ω)
 deriving Repr, Inhabited
 
+/-- module-level constants (emitted by the translator from the live module objects) -/
+inductive G where
+  | none
+  | bool (b : Bool)
+  | int (i : Int)
+  | bytes (b : Bytes)
+  | str (s : Name)
+  | tuple (l : List G)
+deriving Repr, Inhabited
+
 variable {ω σ : Type}
+
+mutual
+  def G.toV : G → V ω
+    | .none => .none
+    | .bool b => .bool b
+    | .int i => .int i
+    | .bytes b => .bytes b
+    | .str s => .str s
+    | .tuple l => .tuple (G.toVs l)
+  def G.toVs : List G → List (V ω)
+    | [] => []
+    | g :: gs => g.toV :: G.toVs gs
+end
+
+def globLookup (gs : List (Name × G)) (x : Name) : Option (V ω) :=
+  match gs with
+  | [] => Option.none
+  | (n, g) :: rest => if n = x then some g.toV else globLookup rest x
 
 /-- embed a keyword-argument value -/
 def V.ofPy : PyVal → V ω
@@ -116,6 +146,7 @@ structure Host (ω σ : Type) where
   call : Name → List (V ω) → List (Name × V ω) → σ → X ω (V ω) × σ
   mcall : V ω → Name → List (V ω) → List (Name × V ω) → σ → X ω (V ω) × σ
   attr : V ω → Name → σ → X ω (V ω)
+  setattr : V ω → Name → V ω → σ → X ω Unit × σ
   index : ω → V ω → σ → X ω (V ω)
   contains : ω → V ω → σ → X ω Bool
   truthy : ω → Bool
@@ -189,6 +220,28 @@ def normBound (n : Nat) (dflt : Nat) : V ω → Option Nat
       some (if x < 0 then (if x + nn < 0 then 0 else x + nn) else if x > nn then nn else x).toNat
     | Option.none => Option.none
 
+/-- `~x` -/
+def intInv (x : Int) : Int := -x - 1
+
+/-- Python `a & b` on unbounded two's-complement integers -/
+def intAnd (a b : Int) : Int :=
+  if 0 ≤ a then
+    if 0 ≤ b then ((a.toNat &&& b.toNat : Nat) : Int)
+    else ((a.toNat - (a.toNat &&& (intInv b).toNat) : Nat) : Int)                    -- a & ~m = a - (a & m)
+  else
+    if 0 ≤ b then ((b.toNat - (b.toNat &&& (intInv a).toNat) : Nat) : Int)
+    else intInv (((intInv a).toNat ||| (intInv b).toNat : Nat) : Int)               -- ~m & ~n = ~(m | n)
+
+def intOr (a b : Int) : Int := intInv (intAnd (intInv a) (intInv b))
+
+def intXor (a b : Int) : Int :=
+  if 0 ≤ a then
+    if 0 ≤ b then ((a.toNat ^^^ b.toNat : Nat) : Int)
+    else intInv ((a.toNat ^^^ (intInv b).toNat : Nat) : Int)
+  else
+    if 0 ≤ b then intInv (((intInv a).toNat ^^^ b.toNat : Nat) : Int)
+    else (((intInv a).toNat ^^^ (intInv b).toNat : Nat) : Int)
+
 def binInt (op : BinOp) (a b : Int) : X ω (V ω) :=
   match op with
   | .add => .ok (.int (a + b))
@@ -196,11 +249,11 @@ def binInt (op : BinOp) (a b : Int) : X ω (V ω) :=
   | .mul => .ok (.int (a * b))
   | .floordiv => if b = 0 then raiseX xZeroDivisionError else .ok (.int (Int.fdiv a b))
   | .mod => if b = 0 then raiseX xZeroDivisionError else .ok (.int (Int.fmod a b))
-  | .band => .ok (.int (a &&& b))
-  | .bor => .ok (.int (a ||| b))
-  | .bxor => .ok (.int (a ^^^ b))
-  | .shl => if b < 0 then raiseX xValueError else .ok (.int (a <<< b.toNat))
-  | .shr => if b < 0 then raiseX xValueError else .ok (.int (a >>> b.toNat))
+  | .band => .ok (.int (intAnd a b))
+  | .bor => .ok (.int (intOr a b))
+  | .bxor => .ok (.int (intXor a b))
+  | .shl => if b < 0 then raiseX xValueError else .ok (.int (a * 2 ^ b.toNat))
+  | .shr => if b < 0 then raiseX xValueError else .ok (.int (Int.fdiv a (2 ^ b.toNat)))
 
 def binOp (op : BinOp) (a b : V ω) : X ω (V ω) :=
   match op, a, b with
@@ -322,8 +375,8 @@ def builtin (f : Name) (args : List (V ω)) (kw : List (Name × V ω)) : Option 
     match args, kw with
     | [.hex b, .int 16], [] => some (if b.isEmpty then raiseX xValueError else .ok (.int (fromBE b : Int)))
     | _, _ => some (raiseX xUnsupported)
-  else if f = fEOFError ∨ f = fTypeError ∨ f = fValueError ∨ f = fKeyError ∨ f = fStopIteration
-          ∨ f = fUBXParseError ∨ f = fUBXMessageError ∨ f = fUBXTypeError ∨ f = fUBXStreamError then
+  else if f = xEOFError ∨ f = xTypeError ∨ f = xValueError ∨ f = xKeyError ∨ f = xStopIteration
+          ∨ f = xUBXParseError ∨ f = xUBXMessageError ∨ f = xUBXTypeError ∨ f = xUBXStreamError then
     some (.ok (.exc f 0))          -- exception constructors: the arguments (message texts) are not modelled
   else Option.none
 
@@ -413,7 +466,7 @@ mutual
     | .inv a, st =>
       match evalE H fuel a st with
       | (.error x, st') => (.error x, st')
-      | (.ok v, st') => ((match asInt? v with | some i => .ok (.int (-i - 1)) | Option.none => raiseX xUnsupported), st')
+      | (.ok v, st') => ((match asInt? v with | some i => .ok (.int (intInv i)) | Option.none => raiseX xUnsupported), st')
     | .neg a, st =>
       match evalE H fuel a st with
       | (.error x, st') => (.error x, st')
@@ -560,6 +613,16 @@ mutual
           match binOp op cur v with
           | .error err => (.error err, st')
           | .ok r => (.ok .next, { st' with vars := setVar st'.vars x r })
+    | .setAttr obj a e, st =>
+      match evalE H fuel obj st with
+      | (.error err, st') => (.error err, st')
+      | (.ok vo, st') =>
+        match evalE H fuel e st' with
+        | (.error err, st'') => (.error err, st'')
+        | (.ok v, st'') =>
+          match H.setattr vo a v st''.h with
+          | (.error err, h') => (.error err, { st'' with h := h' })
+          | (.ok _, h') => (.ok .next, { st'' with h := h' })
     | .ret e, st =>
       match evalE H fuel e st with
       | (.error err, st') => (.error err, st')
@@ -603,6 +666,157 @@ mutual
       | (.ok .next, st') => execB H fuel ss st'
       | (.ok fl, st') => (.ok fl, st')
 end
+
+/-! ### equations used by the equivalence proofs
+
+Loop bodies and conditions get names (`forBody`, `whileCond`, `whileBody`) so that `simp` does not evaluate
+the interpreter under their binders; proofs use the `execS_*` lemmas below instead of unfolding `execS`. -/
+
+def forBody (H : Host ω σ) (fuel : Nat) (x : Name) (body : List S) : V ω → St ω σ → X ω (Flow ω) × St ω σ :=
+  fun v s => execB H fuel body { s with vars := setVar s.vars x v }
+def whileCond (H : Host ω σ) (fuel : Nat) (c : E) : St ω σ → X ω Bool × St ω σ := fun s => evalCond H fuel c s
+def whileBody (H : Host ω σ) (fuel : Nat) (body : List S) : St ω σ → X ω (Flow ω) × St ω σ := fun s => execB H fuel body s
+
+theorem execS_for (H : Host ω σ) (fuel : Nat) (x : Name) (it : E) (body : List S) (st : St ω σ) :
+    execS H fuel (.for_ x it body) st =
+      (match evalE H fuel it st with
+       | (.error err, st') => (.error err, st')
+       | (.ok v, st') =>
+         match iterOf v with
+         | Option.none => (raiseX xUnsupported, st')
+         | some l => forLoop (forBody H fuel x body) l st') := by
+  rw [execS]; rfl
+
+theorem execS_while (H : Host ω σ) (fuel : Nat) (c : E) (body : List S) (st : St ω σ) :
+    execS H fuel (.while_ c body) st = whileLoop (whileCond H fuel c) (whileBody H fuel body) fuel st := by
+  rw [execS]; rfl
+
+theorem execS_expr (H : Host ω σ) (fuel : Nat) (e : E) (st : St ω σ) :
+    execS H fuel (.expr e) st = (match evalE H fuel e st with
+      | (.error x, st') => (.error x, st')
+      | (.ok _, st') => (.ok .next, st')) := by rw [execS]
+theorem execS_assign (H : Host ω σ) (fuel : Nat) (x : Name) (e : E) (st : St ω σ) :
+    execS H fuel (.assign x e) st = (match evalE H fuel e st with
+      | (.error err, st') => (.error err, st')
+      | (.ok v, st') => (.ok .next, { st' with vars := setVar st'.vars x v })) := by rw [execS]
+theorem execS_assignT (H : Host ω σ) (fuel : Nat) (xs : List Name) (e : E) (st : St ω σ) :
+    execS H fuel (.assignT xs e) st = (match evalE H fuel e st with
+      | (.error err, st') => (.error err, st')
+      | (.ok (.tuple vs), st') =>
+        (match bindT xs vs st'.vars with
+         | some vars => (.ok .next, { st' with vars := vars })
+         | Option.none => (raiseX xValueError, st'))
+      | (.ok _, st') => (raiseX xUnsupported, st')) := by rw [execS]
+theorem execS_aug (H : Host ω σ) (fuel : Nat) (x : Name) (op : BinOp) (e : E) (st : St ω σ) :
+    execS H fuel (.aug x op e) st = (match getVar st.vars x with
+      | Option.none => (raiseX xUnboundLocalError, st)
+      | some cur =>
+        match evalE H fuel e st with
+        | (.error err, st') => (.error err, st')
+        | (.ok v, st') =>
+          match binOp op cur v with
+          | .error err => (.error err, st')
+          | .ok r => (.ok .next, { st' with vars := setVar st'.vars x r })) := by rw [execS]
+theorem execS_setAttr (H : Host ω σ) (fuel : Nat) (obj : E) (a : Name) (e : E) (st : St ω σ) :
+    execS H fuel (.setAttr obj a e) st = (match evalE H fuel obj st with
+      | (.error err, st') => (.error err, st')
+      | (.ok vo, st') =>
+        match evalE H fuel e st' with
+        | (.error err, st'') => (.error err, st'')
+        | (.ok v, st'') =>
+          match H.setattr vo a v st''.h with
+          | (.error err, h') => (.error err, { st'' with h := h' })
+          | (.ok _, h') => (.ok .next, { st'' with h := h' })) := by rw [execS]
+theorem execS_ret (H : Host ω σ) (fuel : Nat) (e : E) (st : St ω σ) :
+    execS H fuel (.ret e) st = (match evalE H fuel e st with
+      | (.error err, st') => (.error err, st')
+      | (.ok v, st') => (.ok (.ret v), st')) := by rw [execS]
+theorem execS_raise (H : Host ω σ) (fuel : Nat) (e : E) (st : St ω σ) :
+    execS H fuel (.raise e) st = (match evalE H fuel e st with
+      | (.error err, st') => (.error err, st')
+      | (.ok v, st') => (.error v, st')) := by rw [execS]
+theorem execS_if (H : Host ω σ) (fuel : Nat) (c : E) (t f : List S) (st : St ω σ) :
+    execS H fuel (.if_ c t f) st = (match evalCond H fuel c st with
+      | (.error err, st') => (.error err, st')
+      | (.ok true, st') => execB H fuel t st'
+      | (.ok false, st') => execB H fuel f st') := by rw [execS]
+theorem execS_try (H : Host ω σ) (fuel : Nat) (body : List S) (h1n : List Name) (h1v : Name) (h1 : List S)
+    (h2n : List Name) (h2v : Name) (h2 : List S) (st : St ω σ) :
+    execS H fuel (.try_ body h1n h1v h1 h2n h2v h2) st = (match execB H fuel body st with
+      | (.ok fl, st') => (.ok fl, st')
+      | (.error x, st') =>
+        if h1n.contains (excCls x) then
+          execB H fuel h1 (if h1v = 0 then st' else { st' with vars := setVar st'.vars h1v x })
+        else if h2n.contains (excCls x) then
+          execB H fuel h2 (if h2v = 0 then st' else { st' with vars := setVar st'.vars h2v x })
+        else (.error x, st')) := by rw [execS]
+theorem execS_continue (H : Host ω σ) (fuel : Nat) (st : St ω σ) : execS H fuel .continue_ st = (.ok .cont, st) := by rw [execS]
+theorem execS_break (H : Host ω σ) (fuel : Nat) (st : St ω σ) : execS H fuel .break_ st = (.ok .brk, st) := by rw [execS]
+theorem execS_pass (H : Host ω σ) (fuel : Nat) (st : St ω σ) : execS H fuel .pass st = (.ok .next, st) := by rw [execS]
+
+theorem normBound_nat (n d k : Nat) : normBound (ω := ω) n d (.int (k : Int)) = some (min k n) := by
+  simp only [normBound, asInt?]
+  congr 1
+  have : ¬ ((k : Int) < 0) := by omega
+  simp only [this, if_false]
+  split <;> omega
+
+/-- slice bound given as a non-negative numeral (the side condition is closed by `Int.reduceLE`) -/
+theorem normBound_nonneg (n d : Nat) (i : Int) (h : 0 ≤ i) : normBound (ω := ω) n d (.int i) = some (min i.toNat n) := by
+  obtain ⟨k, rfl⟩ := Int.eq_ofNat_of_zero_le h
+  simpa using normBound_nat n d k
+
+theorem normBound_none (n d : Nat) : normBound (ω := ω) n d .none = some d := rfl
+
+/-- `x[len(x) - 2]`-style bound (Python wraps a negative bound once: right for `len(x) < 2` too) -/
+theorem normBound_len_sub2 (n d : Nat) :
+    normBound (ω := ω) n d (.int ((n : Int) - 2)) = some (n - 2) := by
+  simp only [normBound, asInt?]
+  congr 1
+  split
+  · split <;> omega
+  · split <;> omega
+
+theorem execB_nil (H : Host ω σ) (fuel : Nat) (st : St ω σ) : execB H fuel [] st = (.ok .next, st) := by rw [execB]
+theorem execB_cons (H : Host ω σ) (fuel : Nat) (s : S) (ss : List S) (st : St ω σ) :
+    execB H fuel (s :: ss) st = (match execS H fuel s st with
+      | (.error x, st') => (.error x, st')
+      | (.ok .next, st') => execB H fuel ss st'
+      | (.ok fl, st') => (.ok fl, st')) := by rw [execB]
+
+/-- one statement executed normally: go on with the rest -/
+theorem execB_step (H : Host ω σ) (fuel : Nat) (s : S) (ss : List S) (st st' : St ω σ)
+    (h : execS H fuel s st = (.ok .next, st')) : execB H fuel (s :: ss) st = execB H fuel ss st' := by
+  rw [execB_cons, h]
+
+attribute [pyeval] execS_expr execS_assign execS_assignT execS_aug execS_setAttr execS_ret execS_raise execS_if
+  execS_for execS_while execS_try execS_continue execS_break execS_pass execB_nil
+  evalE evalEs evalCond setVar getVar bindT binOp binInt asInt? cmpOp cmpOrd pyEq memTuple isNone truthy indexOp sliceOp
+  builtin builtinMethod iterOf excCls kwArg normBound_nat normBound_nonneg normBound_none normBound_len_sub2
+  fLen fBytes fInt fIntFromBytes mHex kByteorder kSigned sLittle sBig
+  List.zip_cons_cons List.zip_nil_right List.zip_nil_left List.contains_cons List.contains_nil
+  xEOFError xTypeError xValueError xKeyError xStopIteration xUBXParseError xUBXMessageError xUBXTypeError xUBXStreamError
+  or_false false_or or_self or_true true_or and_true true_and and_false false_and raiseX
+
+/-- evaluate the interpreter on the statement at the head of the goal -/
+macro "pysimp" : tactic => `(tactic| simp only [pyeval, Nat.reduceEqDiff, ↓reduceIte, Int.reduceLE, Int.reduceLT, Int.reduceToNat, Int.reduceNeg, Int.reduceSub, Int.reduceAdd])
+/-- … with extra rewrite rules -/
+macro "pysimp" "[" ls:Lean.Parser.Tactic.simpLemma,* "]" : tactic => `(tactic| simp only [pyeval, Nat.reduceEqDiff, ↓reduceIte, Int.reduceLE, Int.reduceLT, Int.reduceToNat, Int.reduceNeg, Int.reduceSub, Int.reduceAdd, $ls,*])
+
+/-- a `for` loop over bytes whose body acts on the state like a fold step (`x` = the loop variable's value) -/
+theorem forLoop_fold {β : Type} (body : V ω → St ω σ → X ω (Flow ω) × St ω σ) (f : β → Byte → β)
+    (mk : β → V ω → St ω σ)
+    (hstep : ∀ acc x (y : Byte), body (.int y.toNat) (mk acc x) = (.ok .next, mk (f acc y) (.int y.toNat)))
+    (l : Bytes) (acc : β) (x : V ω) :
+    ∃ x', forLoop body (l.map (fun y => V.int y.toNat)) (mk acc x) = (.ok .next, mk (l.foldl f acc) x') := by
+  induction l generalizing acc x with
+  | nil => exact ⟨x, by simp [forLoop]⟩
+  | cons y ys ih =>
+    obtain ⟨x', h⟩ := ih (f acc y) (.int y.toNat)
+    refine ⟨x', ?_⟩
+    rw [List.map_cons, forLoop, hstep]
+    dsimp only
+    rw [h, List.foldl_cons]
 
 /-- a translated function -/
 structure Fn where
